@@ -18,8 +18,8 @@ type Field struct {
 var (
 	GF16   = Field{0x13, 16}
 	GF64   = Field{0x43, 64}
-	GF256Q = Field{285, 256}   // QR
-	GF256D = Field{301, 256}   // DataMatrix, Aztec 8-bit (0x12D)
+	GF256Q = Field{285, 256} // QR
+	GF256D = Field{301, 256} // DataMatrix, Aztec 8-bit (0x12D)
 	GF1024 = Field{0x409, 1024}
 	GF4096 = Field{0x1069, 4096}
 )
